@@ -2,9 +2,9 @@ package main
 
 import (
 	"fmt"
-	"os"
 	"go/token"
 	"go/types"
+	"os"
 	"sort"
 	"strings"
 
@@ -18,8 +18,8 @@ import (
 // protocol layer turns a malformed input into a panic instead of an error.
 func init() {
 	register(&Rule{
-		Name: "ERRASSERT",
-		Doc: "every single-result type assertion `x.(T)` on an interface value to a concrete type T is justified by the possible dynamic types of x: the set is computed from the producers of x (MakeInterface sites, typed package-level sentinels, φ, spilled cells, and — through a least-fixpoint summary — the error results of the repo functions it was returned by; strconv.Parse*/Atoi are tabled as *strconv.NumError); an unknown producer or a producer of another type means the assertion can panic on some input",
+		Name:     "ERRASSERT",
+		Doc:      "every single-result type assertion `x.(T)` on an interface value to a concrete type T is justified by the possible dynamic types of x: the set is computed from the producers of x (MakeInterface sites, typed package-level sentinels, φ, spilled cells, and — through a least-fixpoint summary — the error results of the repo functions it was returned by; strconv.Parse*/Atoi are tabled as *strconv.NumError); an unknown producer or a producer of another type means the assertion can panic on some input",
 		Configs:  "NP",
 		Floor:    map[string]int{"N": 4, "P": 4},
 		Controls: 1,
